@@ -137,6 +137,12 @@ let rec fold_left f l a0 =
   | [] -> a0
   | b :: t -> fold_left f t (f a0 b)
 
+(** val fold_right : ('a2 -> 'a1 -> 'a1) -> 'a1 -> 'a2 list -> 'a1 **)
+
+let rec fold_right f a0 = function
+| [] -> a0
+| b :: t -> f b (fold_right f a0 t)
+
 (** val existsb : ('a1 -> bool) -> 'a1 list -> bool **)
 
 let rec existsb f = function
@@ -4510,3 +4516,83 @@ let adm1b x hn = function
 let rec admb x hn = function
 | [] -> true
 | o :: r -> (&&) (adm1b x hn o) (admb (fst (xstep x o)) (hn_next x hn) r)
+
+(** val dkey : val0 option list -> val0 option list **)
+
+let dkey ga =
+  (nth_o ga O) :: ((nth_o ga (S O)) :: ((nth_o ga (S (S O))) :: ((Some
+    (oval (nth_o ga (S (S (S O)))))) :: [])))
+
+(** val oval_eqb0 : val0 option -> val0 option -> bool **)
+
+let oval_eqb0 x y =
+  match x with
+  | Some u -> (match y with
+               | Some v -> val_eqb u v
+               | None -> false)
+  | None -> (match y with
+             | Some _ -> false
+             | None -> true)
+
+(** val okey_eqb : val0 option list -> val0 option list -> bool **)
+
+let okey_eqb a b =
+  list_eqb oval_eqb0 a b
+
+(** val dec_count : val0 option list -> val0 option -> n **)
+
+let dec_count k = function
+| Some v0 ->
+  (match v0 with
+   | VR fs ->
+     (match fs with
+      | [] -> N0
+      | t :: l ->
+        (match l with
+         | [] -> N0
+         | c :: l0 ->
+           (match l0 with
+            | [] -> N0
+            | f :: l1 ->
+              (match l1 with
+               | [] -> N0
+               | ip :: l2 ->
+                 (match l2 with
+                  | [] -> N0
+                  | o :: l3 ->
+                    (match o with
+                     | Some v1 ->
+                       (match v1 with
+                        | VN n0 ->
+                          (match l3 with
+                           | [] ->
+                             if okey_eqb (t :: (c :: (f :: (ip :: [])))) k
+                             then n0
+                             else N0
+                           | _ :: _ -> N0)
+                        | _ -> N0)
+                     | None -> N0))))))
+   | _ -> N0)
+| None -> N0
+
+(** val dec_total : val0 option list -> val0 option list -> n **)
+
+let dec_total k l =
+  fold_right (fun v a -> N.add (dec_count k v) a) N0 l
+
+(** val new_aec : bparams -> val0 option list -> val0 option list -> n **)
+
+let new_aec bp ga k =
+  if N.testbit bp.h_other (Npos XH)
+  then if okey_eqb (dkey ga) k then Npos XH else N0
+  else N0
+
+(** val log_aec : exporter -> xop list -> val0 option list -> n **)
+
+let rec log_aec x ops k =
+  match ops with
+  | [] -> N0
+  | o :: r ->
+    N.add (match o with
+           | XAec (ga, _) -> new_aec x.x_blk.b_bp ga k
+           | _ -> N0) (log_aec (fst (xstep x o)) r k)
